@@ -32,6 +32,10 @@ pub use traits::ToLeanString;
 
 mod features;
 
+#[cfg(feature = "verif-hooks")]
+#[doc(hidden)]
+pub mod verif_hooks;
+
 /// Compact, clone-on-write, UTF-8 encoded, growable string type.
 #[repr(transparent)]
 pub struct LeanString(Repr);
@@ -877,6 +881,15 @@ impl LeanString {
     #[inline]
     pub fn is_heap_allocated(&self) -> bool {
         self.0.is_heap_buffer()
+    }
+}
+
+#[cfg(feature = "verif-hooks")]
+impl LeanString {
+    /// Current reference count of the heap buffer (`None` unless heap-allocated).
+    #[doc(hidden)]
+    pub fn verif_refcount(&self) -> Option<usize> {
+        self.0.verif_refcount()
     }
 }
 
